@@ -221,7 +221,7 @@ def unit_inputs():
     out = []
     for unit in (1, 30, "minutes", 120):
         for header in ("absent", True, "false"):
-            for wf in (0, 1):
+            for wf in (0, 1, 2):
                 out.append({"unit": unit, "header": header, "wf": wf})
     return out
 
@@ -236,8 +236,8 @@ def run_unit_sim(x, wd):
     from topsim.user.plan.batch_planning import BatchPlanning
     from topsim.user.schedule.queue_allocation import QueueProcessing
     u = {"minutes": 60}.get(x["unit"], x["unit"])
-    comps = [[240, 480, 720], [960, 240, 240, 480]][x["wf"]]
-    datas = [[0, 480, 0], [0, 0, 1920, 0]][x["wf"]]
+    comps = [[240, 480, 720], [960, 240, 240, 480], [240, 480, 480]][x["wf"]]
+    datas = [[0, 480, 0], [0, 0, 1920, 0], [0, 0, 0]][x["wf"]]
     nodes = []
     for k, c in enumerate(comps):
         d = {"id": k, "comp": c}
@@ -245,6 +245,10 @@ def run_unit_sim(x, wd):
             d["task_data"] = datas[k]
         nodes.append(d)
     edges = [{"source": k, "target": k + 1, "transfer_data": 0} for k in range(len(comps) - 1)]
+    if x["wf"] == 2:
+        # a fork: both children become ready together, one of them on the other
+        # machine, which then waits 480 units / (4 units/s) = 120 s for its input
+        edges = [{"source": 0, "target": 1, "transfer_data": 480}, {"source": 0, "target": 2, "transfer_data": 480}]
     sub = os.path.join(wd, "unit_%s_%s_%d" % (x["unit"], x["header"], x["wf"]))
     os.makedirs(sub, exist_ok=True)
     hdr = {} if x["header"] == "absent" else {"time": x["header"]}
@@ -269,6 +273,13 @@ def run_unit_sim(x, wd):
     try:
         env = simpy.Environment()
         sim = Simulation(env, cp, Telescope, BatchPlanning('batch'), 'batch', QueueProcessing(), timestamp=0)
+        placed = {}
+        orig = sim.cluster.allocate_task_to_cluster
+
+        def observe(task, machine, *a, **k):      # pure observer: where and when a task is handed over
+            placed[str(task.id)] = (str(machine.id), env.now)
+            return orig(task, machine, *a, **k)
+        sim.cluster.allocate_task_to_cluster = observe
         sim.start()
         cl = sim.cluster._clusters["default"]
         for t in cl["tasks"]["finished"]:
@@ -276,8 +287,18 @@ def run_unit_sim(x, wd):
                 rec["obs_seconds"] = _as_int((t.aft - t.ast) * u, "ingest seconds")
                 continue
             k = int(t.graph_id)
+            here, when = placed.get(str(t.id), ("", -1))
+            preds = []
+            for e in edges:
+                if e["target"] == k:
+                    pt = [q for q in cl["tasks"]["finished"] if "ingest" not in str(q.id) and int(q.graph_id) == e["source"]]
+                    if pt:
+                        preds.append({"aft": _as_int(pt[0].aft * u, "pred finish"), "vol": e["transfer_data"],
+                                      "same": placed.get(str(pt[0].id), ("?", 0))[0] == here})
             rec["tasks"].append({"k": k, "sec": _as_int((t.aft - t.ast) * u, "seconds"),
-                                 "expect": max(comps[k] // 2, datas[k] // 4)})
+                                 "expect": max(comps[k] // 2, datas[k] // 4),
+                                 "ast": _as_int(t.ast * u, "start"), "alloc": _as_int(when * u, "hand-over"),
+                                 "preds": preds})
         rec["tasks"].sort(key=lambda r: r["k"])
         rec["ntasks"] = len(comps)
         o = sim.instrument.observations[0]
